@@ -22,9 +22,22 @@ ListT(es) == [k |-> "list", es |-> es]
 
 One == VInt(BFromInt(1))
 Zero == VInt(BFromInt(0))
+FStrT(a) == [k |-> "fstr", segs |-> <<[s |-> <<120>>], [e |-> a]>>]
+MapT(ke, ve) == [k |-> "map", kv |-> <<<<ke, ve>>>>]
+SelT(e, f, fc) == [k |-> "sel", e |-> e, f |-> f, fc |-> fc]
+IdxT(e, i) == [k |-> "idx", e |-> e, i |-> i]
+MatchT(e, pv, arm, other) == [k |-> "match", e |-> e, cases |-> <<[p |-> [pk |-> "cmp", op |-> "==", v |-> pv], e |-> arm], [p |-> [pk |-> "any"], e |-> other]>>]
+SizeName == <<115, 105, 122, 101>>
 Atoms == {Lit(VTrue), Lit(VFalse), Lit(One), Lit(VStr(<<>>)), Lit(VNull),
           Id("x"), Id("z"), Id("u"), Id("pbad"), Id("pok"), Id("int"),
-          Call("f", <<>>), Call("g", <<>>), Call("h", <<>>)}
+          Call("f", <<>>), Call("g", <<>>), Call("h", <<>>),
+          \* operands that fail in their own ways: an f-string with a failing segment, a map with a key that is not a string
+          \* (built at run time, and folded), a method that is selected but not called, a field of that name, an index out of range
+          FStrT(Call("g", <<>>)), FStrT(Id("u")), FStrT(Lit(VStr(<<97>>))),
+          MapT(Call("h", <<>>), Lit(One)), MapT(Lit(One), Lit(One)), MapT(Lit(VStr(<<107>>)), Call("f", <<>>)),
+          SelT(ListT(<<Id("x")>>), "size", SizeName), SelT(MapT(Lit(VStr(SizeName)), Id("x")), "size", SizeName),
+          IdxT(ListT(<<Id("x")>>), Lit(One)),
+          MatchT(Id("z"), Lit(Zero), Call("f", <<>>), Call("g", <<>>)), MatchT(Call("h", <<>>), Lit(One), Id("u"), Lit(VNull))}
 Small == {Lit(VTrue), Lit(VFalse), Id("u"), Call("f", <<>>), Call("g", <<>>), Id("pbad")}
 
 Vars == [x |-> VTrue, z |-> Zero]
@@ -80,6 +93,6 @@ Inv == IF Agree(t) THEN TRUE ELSE (PrintT(<<"DISAGREE", t, RunProgram(Compile(t)
 (* the comparison is not vacuous: count the trees on which the VM result is determined and the reference fixes one outcome and one log *)
 Determined(tr) == ~RunProgram(Compile(tr), EnvV).unk /\ Eval(tr, EnvE).o.o \in {"ok", "err"} /\ Eval(tr, EnvE).lk
 DeterminedF(tr) == ~RunProgram(CompileF(tr), EnvV).unk /\ Eval(tr, EnvE).o.o \in {"ok", "err"} /\ Eval(tr, EnvE).lk
-ASSUME PrintT(<<"L1", Cardinality(L1), "determined", Cardinality({x \in L1 : Determined(x)}), "determined with folding", Cardinality({x \in L1 : DeterminedF(x)}),
+ASSUME Levels = 1 \/ PrintT(<<"L1", Cardinality(L1), "determined", Cardinality({x \in L1 : Determined(x)}), "determined with folding", Cardinality({x \in L1 : DeterminedF(x)}),
                 "folded to a constant", Cardinality({x \in L1 : F(x).c})>>)
 =============================================================================
